@@ -10,6 +10,7 @@ import (
 
 	"github.com/cloudwego/hertz/pkg/app"
 	"github.com/cloudwego/hertz/pkg/common/config"
+	"github.com/cloudwego/hertz/pkg/network"
 	"github.com/cloudwego/hertz/pkg/network/standard"
 	"github.com/cloudwego/hertz/pkg/route"
 
@@ -28,7 +29,7 @@ func init() {
 			"the window between the status load and the CAS inside Engine.Shutdown contains no park point; a second Shutdown is only judged when it starts after the first one has begun",
 			"signal handling (Spin) is not exercised",
 		},
-		RequiredProbes: []string{"conn-idle-at-shutdown", "conn-handler-running-at-shutdown", "conn-mid-request-at-shutdown", "hook-slow", "hook-beyond-deadline", "second-shutdown", "shutdown-before-run", "dial-after-shutdown", "wait-expired", "returned-early", "close-hdr-checked"},
+		RequiredProbes: []string{"conn-idle-at-shutdown", "conn-handler-running-at-shutdown", "conn-mid-request-at-shutdown", "hook-slow", "hook-beyond-deadline", "second-shutdown", "shutdown-before-run", "dial-after-shutdown", "wait-expired", "returned-early", "close-hdr-checked", "slow-accept-callback"},
 	}
 }
 
@@ -48,6 +49,24 @@ func RunC18(ep *core.Episode) {
 	opts.IdleTimeout = idleT
 	opts.ReadTimeout = 0
 	opts.DisablePrintRoute = true
+	// connection callbacks that take time: a connection can be accepted but not yet handed to its goroutine
+	cbDelay := tp.PickDur("cbdelay", 0, 0, 15*time.Millisecond)
+	if cbDelay > 0 {
+		ep.Probe("slow-accept-callback")
+		if tp.Choose("cbkind", 2) == 0 {
+			opts.OnAccept = func(conn net.Conn) context.Context {
+				time.Sleep(cbDelay)
+				S.Yield("after-onaccept")
+				return context.Background()
+			}
+		} else {
+			opts.OnConnect = func(ctx context.Context, conn network.Conn) context.Context {
+				time.Sleep(cbDelay)
+				S.Yield("after-onconnect")
+				return ctx
+			}
+		}
+	}
 	eng := route.NewEngine(opts)
 
 	var hmu sync.Mutex
@@ -170,6 +189,7 @@ func RunC18(ep *core.Episode) {
 	_ = secondStartedAfter
 	activeAtShutdown := 0
 	firstWasRunning, secondWasRunning := false, false
+	var stillOpen []string
 	shutTask := S.Go("shutdown", func() {
 		// the main shutdown call waits until the engine is up
 		for i := 0; i < 400 && !eng.IsRunning(); i++ {
@@ -209,6 +229,14 @@ func RunC18(ep *core.Episode) {
 		t0 := time.Now()
 		shutErr = eng.Shutdown(context.Background())
 		shutDur = time.Since(t0)
+		// returning nil before the wait expired claims that every accepted connection is finished
+		if shutErr == nil && firstWasRunning && shutDur < exitWait {
+			for _, ac := range ln.AcceptedConns {
+				if !ac.IsClosed() && !ac.Peer.IsClosed() {
+					stillOpen = append(stillOpen, ac.Name)
+				}
+			}
+		}
 		S.Yield("after-shutdown")
 		shutReturned = true
 		ep.Logf("  shutdown returned %v after %v", shutErr, shutDur)
@@ -332,6 +360,10 @@ func RunC18(ep *core.Episode) {
 			ep.Fail("C18.bound", "Shutdown of a running engine returned error %v", shutErr2)
 			return
 		}
+	}
+	if len(stillOpen) > 0 {
+		ep.Fail("C18.complete", "Shutdown returned nil after %v (exit wait %v) although accepted connections %v were still open", shutDur, exitWait, stillOpen)
+		return
 	}
 	if !ln.IsClosed() {
 		ep.Fail("C18.no-accept", "the listener is still open after Shutdown returned")
